@@ -638,6 +638,17 @@ def case_cov(c, rng, idx, K):
         if ok_params and p not in ok_params:
             p = rng.choice(ok_params)
     eff_arg = custom[0] if custom else effect
+    if stratum in ("A", "plus") and rng.random() < 0.3:
+        # the parameter already carries an effect of ANOTHER covariate (a pure effect statement p = p*pCOV0): the new
+        # effect must still be combined by the requested operation
+        others = [x for x in ["CVC", "CVT", "WGT", "AGE"] if x in cols and x != cov]
+        if others:
+            cov0 = rng.choice(others)
+            try:
+                M = pm.add_covariate_effect(M, p, cov0, rng.choice(["lin", "exp"]), "*")
+                steps = list(steps) + [f"add_covariate_effect({p},{cov0},*)"]
+            except Exception:
+                c.hit("earlier_effect_refused")
     c.sample = {"kind": "cov", "stratum": stratum, "start": sname, "steps": steps, "profile": profile,
                 "call": f"add_covariate_effect(m, {p!r}, {cov!r}, {eff_arg!r}, {op!r}, allow_nested={allow_nested})"}
     c.fp = fp_of("cov", sname, steps, profile, p, cov, eff_arg, op, allow_nested)
